@@ -365,3 +365,56 @@ def ob(rule: str, inst: str, f: Func, node: Optional[ast.AST], ok: bool, fact: s
 def need(cond: bool, msg: str) -> None:
     if not cond:
         raise AnalysisError(msg)
+
+
+# ------------------------------------------------------------ boolean equivalence of small conditions
+def _atom(e: ast.expr):
+    """(atom key, polarity) with `not in` / `is not` / `!=` folded into the polarity"""
+    if isinstance(e, ast.Compare) and len(e.ops) == 1:
+        op = e.ops[0]
+        l, r = src(e.left), src(e.comparators[0])
+        neg = {ast.NotIn: ast.In, ast.IsNot: ast.Is, ast.NotEq: ast.Eq}
+        if type(op) in neg:
+            return (f"{l} {neg[type(op)].__name__} {r}", False)
+        if isinstance(op, (ast.Eq, ast.Is)) :
+            a, b = sorted([l, r])
+            return (f"{a} {type(op).__name__} {b}", True)
+        # orderings:  a < b  ==  b > a ;  a >= b == not (a < b)   (NaN-free reading)
+        if isinstance(op, ast.Gt):
+            return (f"{r} Lt {l}", True)
+        if isinstance(op, ast.GtE):
+            return (f"{l} Lt {r}", False)
+        if isinstance(op, ast.LtE):
+            return (f"{r} Lt {l}", False)
+        return (f"{l} {type(op).__name__} {r}", True)
+    return (src(e), True)
+
+
+def _boolfn(e: ast.expr, atoms: List[str]):
+    if isinstance(e, ast.BoolOp):
+        fs = [_boolfn(v, atoms) for v in e.values]
+        if isinstance(e.op, ast.And):
+            return lambda env: all(f(env) for f in fs)
+        return lambda env: any(f(env) for f in fs)
+    if isinstance(e, ast.UnaryOp) and isinstance(e.op, ast.Not):
+        f = _boolfn(e.operand, atoms)
+        return lambda env: not f(env)
+    k, pol = _atom(e)
+    if k not in atoms:
+        atoms.append(k)
+    return (lambda env: env[k]) if pol else (lambda env: not env[k])
+
+
+def bool_equiv(a: ast.expr, b) -> bool:
+    """are two small conditions logically equivalent (truth table over their atoms)? b may be source text"""
+    if isinstance(b, str):
+        b = ast.parse(b, mode="eval").body
+    atoms: List[str] = []
+    fa, fb = _boolfn(a, atoms), _boolfn(b, atoms)
+    if len(atoms) > 8:
+        return src(a) == src(b)
+    for m in range(2 ** len(atoms)):
+        env = {k: bool(m >> i & 1) for i, k in enumerate(atoms)}
+        if fa(env) != fb(env):
+            return False
+    return True
